@@ -28,7 +28,8 @@ Theorem judge_sound strat offered sc final_ids explicit fee :
   NoDup final_ids /\ (forall x, In x final_ids -> In x (ids pre) \/ In x (ids offered)) /\
   incl (ids pre) final_ids /\
   (exists total, sum_values value_zero (map u_val inputs) = Ok total /\ value_eqb_sem total explicit = true) /\
-  covers_coin sc inputs fee /\ covers_assets sc inputs.
+  covers_coin sc inputs fee /\ covers_assets sc inputs /\
+  (lf_clause_applies strat sc = true -> lf_largest_b offered (ids pre) final_ids = true).
 Proof.
   unfold judge. intros H.
   destruct (premises_b offered sc) eqn:Ep; cbn [negb] in H; [|discriminate H].
@@ -41,6 +42,7 @@ Proof.
   destruct (sum_values value_zero (map u_val inputs)) as [total| | |] eqn:Es; try discriminate H.
   destruct (value_eqb_sem total explicit) eqn:E3; cbn [negb] in H; [|discriminate H].
   destruct (covers_qb ByCoin sc inputs fee) eqn:E4; cbn [negb] in H; [|discriminate H].
+  destruct (lf_clause_applies strat sc && negb (lf_largest_b offered (ids pre) final_ids)) eqn:E6; [discriminate H|].
   destruct (forallb (fun s => covers_qb s sc inputs 0) (demand_selectors sc)) eqn:E5;
     [|destruct (burn_class strat sc); discriminate H].
   apply Bool.andb_true_iff in E1. destruct E1 as [E1a E1b].
@@ -61,4 +63,5 @@ Proof.
         apply in_map_iff in Hv. destruct Hv as [o [<- Ho]].
         apply in_flat_map. exists o. split; auto. apply selectors_complete. exact Hq. }
     rewrite forallb_forall in E5. specialize (E5 _ Hin). unfold covers_qb in E5. apply N.leb_le. exact E5.
+  - intros Hl. rewrite Hl in E6. cbn [andb] in E6. apply Bool.negb_false_iff in E6. exact E6.
 Qed.
